@@ -24,7 +24,7 @@ REAL = ["rpyc.core.protocol.Connection (boxing, dispatch, re-entrant serve, hand
 STUB = ["sockets/poll/time/locks (simulator)"]
 ASSUMPTIONS = ["the in-process execution of the same program is the specification", "no BgServingThread configuration here (its timing "
                "defect D7 is C13/C14's subject and would turn into spurious timeouts inside nested calls)"]
-PROBES = ["c01:exception-crossed", "c01:callable-called-remotely", "c01:depth>=4", "c01:class-called-remotely"]
+PROBES = ["c01:exception-crossed", "c01:callable-called-remotely", "c01:depth>=4", "c01:class-called-remotely", "c01:keyword-named-self"]
 
 EXC = {"ValueError": ValueError, "KeyError": KeyError, "ZeroDivisionError": ZeroDivisionError, "IndexError": IndexError,
        "TypeError": TypeError, "RuntimeError": RuntimeError, "AttributeError": AttributeError, "OSError": OSError}
@@ -185,6 +185,8 @@ class Interp(object):
             ckw = {}
             if e["kw"] >= 1:
                 ckw[KWNAMES[(sel[5] // len(IMM)) % len(KWNAMES)]] = IMM[sel[5] % len(IMM)]
+                if "self" in ckw and self.sim is not None:
+                    self.sim.count("c01:keyword-named-self")
             if e["kw"] >= 2:
                 ckw["kb"] = refs[sel[6] % len(refs)]
             child = e["to"]
